@@ -12,6 +12,14 @@ Runs the real ``dns.zone`` / ``dns.zonefile`` / ``dns.tokenizer`` code on PYTHON
   C09.spellings          every equivalent re-spelling loads to a zone equal to the canonical
                          one (inherited/explicit owner, TTL, class; TTL-class order;
                          $ORIGIN-relative/absolute; parenthesised multi-line; comments)
+  C09.spellings_no_default_ttl
+                         while no default TTL is known (no $TTL, no SOA so far) every record of
+                         a short sequence is spelled independently '<ttl> <class> <type>',
+                         '<class> <ttl> <type>', '<ttl> <type>', '<class> <type>' or '<type>'
+                         (the last two inherit the TTL of the previous record, however that one
+                         was spelled); the sequence loads like its fully explicit spelling --
+                         through dns.zone.from_text (SOA absent with check_origin=False, or SOA
+                         last) and dns.zonefile.read_rrsets
   C09.generate           a $GENERATE line loads to the same zone as its expansion placed at the
                          same point of the file -- at the zone origin and below a $ORIGIN that
                          names a proper subdomain of it, with relative and absolute domain
@@ -83,6 +91,18 @@ BOUNDS = (
     "both, quick alternating; quick half of them on the absolute zone) + the other default_ttl values "
     "+ quick 2 / thorough 8 seeded settings of the remaining switches; default_ttl=0 also on every "
     "ordinary zone (2 styles).  "
+    "C09.spellings_no_default_ttl: files WITHOUT $TTL in which no default TTL is known before the "
+    "last record: EVERY sequence of 2..4 (thorough: 2..5) records with distinct (owner, type) from a "
+    "pool of 5 (+ the SOA), each record independently spelled '<ttl> <class> <type>' / '<class> <ttl> "
+    "<type>' / '<ttl> <type>' / '<class> <type>' (TTL inherited) / '<type>' (TTL inherited), the first "
+    "one with a TTL (3 x 5^(n-1) spellings per length), distinct seeded TTLs from {0,1,7,60,100,300,"
+    "3600,86400,604800,2^31-1} (the SOA minimum differs from all), in 4 layouts: zone fragment without "
+    "SOA (dns.zone.from_text, check_origin=False), origin NS first + SOA last (from_text with the "
+    "origin check), dns.zonefile.read_rrsets(rdclass=None) without SOA and with the SOA last; x "
+    "relativize on/off (thorough: both for every sequence, a second TTL draw and a shuffled record "
+    "order; quick: alternating); compared with the '<ttl> <class> <type>' spelling of the same sequence "
+    "carrying the inherited TTLs explicitly (TTL-sensitive dump), which itself is compared with the "
+    "expected TTLs; a spelling rejected together with its explicit twin is not flagged.  "
     "C09.out_of_zone: 14 out-of-zone line shapes x position x relativization on every zone.  "
     "C09.cname_other: 10 other-data types x both orders x {adjacent, separated, via $GENERATE, "
     "inherited owner, different case} x relativization, and the invariant on every zone loaded anywhere in the "
@@ -572,6 +592,157 @@ def eval_cname(other_idx, order, shape, relativize):
     return None, z, text
 
 
+# ------------------------------------------------------------------------------- TTL spellings, no default TTL
+# RFC 1035 5.1: "<rr> contents take one of the following forms: [<TTL>] [<class>] <type> <RDATA> /
+# [<class>] [<TTL>] <type> <RDATA> ... Omitted class and TTL values are default to the last
+# explicitly stated values."  While no default TTL is known (no $TTL, no SOA yet) the TTL a record
+# inherits is therefore the TTL of the previous record, whichever of the two orders spelled it.
+_TTL_FORMS = {
+    "tc": "<ttl> <class> <type>",
+    "ct": "<class> <ttl> <type>",
+    "t": "<ttl> <type>",
+    "c": "<class> <type>",
+    "n": "<type>",
+}
+_TTL_EXPLICIT = ("tc", "ct", "t")
+_TTL_POOL = [
+    ("@", "NS", "ns1"), ("ns1", "A", "10.0.0.1"), ("www", "AAAA", "2001:db8::1"), ("mail", "MX", "10 mx"), ("txt", "TXT", '"v"'),
+]
+_TTL_SOA = ("@", "SOA", "ns1 hostmaster 1 7200 3600 1209600 55")
+_TTL_VALUES = (0, 1, 7, 60, 100, 300, 3600, 86400, 604800, 2147483647)
+_TTL_LAYOUTS = ("fragment", "soa_last", "rrsets", "rrsets_soa_last")
+_TTL_ORIGIN = "example."
+
+
+def _ttl_line(rec, form, ttl):
+    owner, rdtype, rdata = rec
+    mid = {"tc": f"{ttl} IN ", "ct": f"IN {ttl} ", "t": f"{ttl} ", "c": "IN ", "n": ""}[form]
+    return f"{owner} {mid}{rdtype} {rdata}"
+
+
+def _ttl_effective(forms, ttls):
+    eff = []
+    for f, t in zip(forms, ttls):
+        eff.append(t if f in _TTL_EXPLICIT else eff[-1])
+    return eff
+
+
+def _ttl_load(layout, text, relativize):
+    """TTL-sensitive dump of what the text loads to in the given layout."""
+    if layout in ("fragment", "soa_last"):
+        return dump(_load(text, _TTL_ORIGIN, relativize, check_origin=(layout == "soa_last")))
+    import dns.zonefile
+
+    origin = dns.name.from_text(_TTL_ORIGIN)
+    out = {}
+    for rrs in dns.zonefile.read_rrsets(text, rdclass=None, origin=_TTL_ORIGIN, relativize=relativize):
+        an = rrs.name if rrs.name.is_absolute() else rrs.name.derelativize(origin)
+        out[(an, int(rrs.rdtype), int(rrs.covers))] = (int(rrs.rdclass), int(rrs.ttl), frozenset(rd.to_wire(origin=origin) for rd in rrs))
+    return out
+
+
+def _ttl_pair(layout, relativize, recs, forms, ttls):
+    """-> (difference or None, eff, explicit outcome, spelled outcome); an outcome is a dump or
+    the exception the load raised."""
+    eff = _ttl_effective(forms, ttls)
+    spelled = "\n".join(_ttl_line(r, f, t) for r, f, t in zip(recs, forms, ttls)) + "\n"
+    explicit = "\n".join(_ttl_line(r, "tc", t) for r, t in zip(recs, eff)) + "\n"
+    res = []
+    for text in (explicit, spelled):
+        try:
+            res.append(_ttl_load(layout, text, relativize))
+        except Exception as e:
+            res.append(e)
+    a, b = res
+    if isinstance(a, Exception) and isinstance(b, Exception):
+        return None, eff, a, b  # rejected consistently with the explicit twin
+    if isinstance(b, Exception):
+        return f"rejected ({exc_name(b)}: {short(b, 70)}) although the explicit spelling loads", eff, a, b
+    if isinstance(a, Exception):
+        return f"accepted although the explicit spelling is rejected ({exc_name(a)}: {short(a, 70)})", eff, a, b
+    d = diff_dumps(a, b)
+    return (None if d is None else f"loads differently from the explicit spelling: {d}"), eff, a, b
+
+
+def eval_ttl_order(layout, relativize, recs, forms, ttls):
+    """-> (finding|None, nontrivial).  The sequence in the given per-record spellings against
+    the same sequence written '<ttl> <class> <type>' with the inherited TTLs made explicit."""
+    recs = [tuple(r) for r in recs]
+    d, eff, a, b = _ttl_pair(layout, relativize, recs, forms, ttls)
+    if not isinstance(a, Exception):
+        # the explicit twin against the expected TTLs (one RRset per record)
+        origin = dns.name.from_text(_TTL_ORIGIN)
+        for (owner, rdtype, _), t in zip(recs, eff):
+            key = (dns.name.from_text(owner, origin), int(dns.rdatatype.from_text(rdtype)), 0)
+            if key not in a or a[key][1] != t:
+                return (f"[{layout}] the explicit spelling '{owner} {t} IN {rdtype} ...' loads with {a.get(key, ('-', 'no such RRset'))[1]} instead of TTL {t}",
+                        {"site": "dns.zonefile.Reader._rr_line", "class": "no default TTL: explicit '<ttl> <class> <type>' record loads with another TTL"}), True
+    if d is None:
+        return None, not isinstance(a, Exception)
+    # the shortest prefix that already disagrees names the record (and so the spelling) at fault
+    # (prefixes lack the SOA: they are read without the origin check)
+    k = len(recs)
+    for n in range(1, len(recs)):
+        if _ttl_pair("fragment" if layout == "soa_last" else layout, relativize, recs[:n], forms[:n], ttls[:n])[0] is not None:
+            k = n
+            break
+    i = k - 1
+    text = " | ".join(_ttl_line(r, f, t) for r, f, t in zip(recs, forms, ttls))
+    if forms[i] in _TTL_EXPLICIT:
+        sig = {"site": "dns.zonefile.Reader._rr_line", "class": "no default TTL: a record with an explicit TTL differs from its '<ttl> <class> <type>' spelling",
+               "spelling": _TTL_FORMS[forms[i]]}
+        why = f"record {i + 1} ({_TTL_FORMS[forms[i]]})"
+    else:
+        j = max(x for x in range(i) if forms[x] in _TTL_EXPLICIT)
+        sig = {"site": "dns.zonefile.Reader._rr_line", "class": "no default TTL: a record that omits its TTL does not get the TTL of the previous record",
+               "previous": _TTL_FORMS[forms[j]]}
+        why = f"record {i + 1} omits its TTL and must inherit {eff[i]} from record {j + 1}, spelled {_TTL_FORMS[forms[j]]}"
+    return (f"[{layout}, relativize={relativize}] '{text}' {d}; {why}", sig), True
+
+
+def _ttl_form_sequences(n):
+    for first in _TTL_EXPLICIT:
+        for rest in itertools.product(tuple(_TTL_FORMS), repeat=n - 1):
+            yield (first,) + rest
+
+
+def _run_ttl_order(R, rng2):
+    """C09.spellings_no_default_ttl: every per-record spelling of short sequences in files where
+    no default TTL becomes known before the last record."""
+    clause = "C09.spellings_no_default_ttl"
+    draws = 1 if R.quick else 2
+    count = 0
+    for draw in range(draws):
+        for layout in _TTL_LAYOUTS:
+            soa = layout.endswith("soa_last")
+            for n in range(2, (5 if R.quick else 6)):
+                pool = list(_TTL_POOL)
+                if draw:
+                    head, tail = pool[:1], pool[1:]
+                    rng2.shuffle(tail)
+                    pool = head + tail if soa else tail + head
+                # soa_last: the origin NS first (the origin check wants it), the SOA last
+                recs = (pool[: n - 1] + [_TTL_SOA]) if soa else pool[1 : n + 1] if n < 5 else pool[:n]
+                ttls = rng2.sample(_TTL_VALUES, n)
+                for si, forms in enumerate(_ttl_form_sequences(n)):
+                    if (si & 31) == 0 and R.deadline():
+                        R.note(f"TTL spellings without a default TTL: stopped in {layout}, length {n} (deadline)")
+                        return
+                    for rel in ((True, False) if not R.quick else (bool((si + n) % 2),)):
+                        res = R.guard(clause, eval_ttl_order, layout, rel, recs, list(forms), ttls)
+                        if res is None:
+                            continue
+                        inherits = any(f not in _TTL_EXPLICIT for f in forms)
+                        R.case(clause, key=(layout, rel, tuple(recs), forms, tuple(ttls)), nontrivial=res[1] and (inherits or "ct" in forms or "t" in forms))
+                        count += 1
+                        if layout == "fragment" and n == 3 and forms == ("tc", "ct", "n"):
+                            R.sample(clause, {"layout": layout, "lines": [_ttl_line(r, f, t) for r, f, t in zip(recs, forms, ttls)],
+                                              "explicit": [_ttl_line(r, "tc", t) for r, t in zip(recs, _ttl_effective(forms, ttls))]})
+                        _emit(R, clause, res[0], {"kind": "ttl_order", "layout": layout, "relativize": rel, "recs": [list(r) for r in recs],
+                                                  "forms": list(forms), "ttls": ttls})
+    R.note(f"TTL spellings without a default TTL: {count} sequences")
+
+
 # ------------------------------------------------------------------------------- driver
 def _emit(R, clause, finding, replay):
     if finding is None or finding == "skip":
@@ -820,6 +991,8 @@ def run(R):
     R.note(f"+generate below $ORIGIN: {R.elapsed():.1f} s")
     _run_ttl0(R, C, rng2, zones, unloadable)
     R.note(f"+TTL 0: {R.elapsed():.1f} s")
+    _run_ttl_order(R, rng2)
+    R.note(f"+TTL spellings without a default TTL: {R.elapsed():.1f} s")
     # ---- styles: exhaustive product on the first zones, seeded subsets on the rest
     budget_frac = 0.85
     for zi, zm in enumerate(zones):
@@ -869,6 +1042,8 @@ def replay(data):
     elif k == "generate":
         r = eval_generate(data["g"], data["relativize"], data.get("origin", "example."), data.get("sub"), data.get("layout", 0))
         f = None if r[0] in (None, "skip") else r[0]
+    elif k == "ttl_order":
+        f, _ = eval_ttl_order(data["layout"], data["relativize"], data["recs"], data["forms"], data["ttls"])
     elif k == "cname":
         r = eval_cname(data["other"], data["order"], data["shape"], data["relativize"])
         f = None if r[0] in (None, "skip") else r[0]
